@@ -123,7 +123,7 @@ def mkFunc (recv : Option Recv) (name : Bytes) (params results : GoFields) (body
 /-! ## declarations, in source order -/
 
 def aliasView : Member → Option (List Decl)
-  | .alias n _ ty => (goTy ty true).map (fun t => [.type n t])
+  | .alias n _ ty => (goTy ty true).map (fun t => [if isAliasDecl ty then .alias n t else .type n t])
   | _ => some []
 
 def fieldUses : Fields → List Stmt
